@@ -5,19 +5,29 @@
    column + 1, idx holds the row of each stored entry. *)
 From Coq Require Import List Arith ZArith Bool Lia Permutation Sorted.
 From CTM Require Import Base.Sx Model.Sparse Model.Transpose
-  Proofs.SparseP Proofs.TransposeP Proofs.TransposeFillP Proofs.TransposeSpecP Proofs.TransposePatternP Proofs.TransposeParP Proofs.SparseReshapeP Proofs.SparseSelectP.
+  Proofs.SparseP Proofs.TransposeP Proofs.TransposeFillP Proofs.TransposeSpecP Proofs.TransposePatternP Proofs.TransposeParP Proofs.SparseReshapeP Proofs.SparseSelectP
+  Proofs.TransposeGuardP Proofs.SparseGuardP.
 Import ListNotations.
 
 (* ---- count pass (_calculate_csr_indptr): for every load chunk size >= 1 the pointer
    array is 0 followed by the prefix sums of the exact number of entries of each output
    row of the slice, and n_non_zero is the number of entries of the slice - in
-   particular neither depends on the chunk size *)
+   particular neither depends on the chunk size - and the pointer array ends at
+   n_non_zero.
+   Hypothesis (audit, defect 10): every minor index left by the slice is below the number n
+   of output rows.  With a slice this always holds (n = hi - lo and the filter keeps
+   lo <= x < hi); without a slice n = indices_max and an index >= indices_max makes the
+   real function raise IndexError at `cumulative_count[unq_val] += unq_ct`, whereas
+   calc_indptr silently drops it from the counts but not from n_non_zero
+   (c13_example_count_pass_guard: the excluded input is exactly where Python raises; the
+   entry point `transpose` of the model answers Err EIndex there). *)
 Theorem c13_count_pass : forall es n sl Lc,
-  1 <= Lc ->
+  1 <= Lc -> Forall (fun e => e_minor e < n) (apply_slice sl es) ->
   calc_indptr es n sl Lc =
   (0 :: cumsum_from 0 (map (fun r => length (out_row (apply_slice sl es) r)) (seq 0 n)),
-   length (apply_slice sl es)).
-Proof. exact calc_indptr_spec. Qed.
+   length (apply_slice sl es)) /\
+  last (fst (calc_indptr es n sl Lc)) 0 = snd (calc_indptr es n sl Lc).
+Proof. exact calc_indptr_guarded. Qed.
 Print Assumptions c13_count_pass.
 
 (* ---- transpose_sparse_matrix_on_disk.  For every well-formed CSC input (pointer
@@ -35,10 +45,16 @@ Print Assumptions c13_count_pass.
      when no input column stores a row twice;
    - every stored value sits at its transposed position: cell (out, r, j) =
      cell (in, j, lo + r), i.e. the dense view of the output is the transpose of the
-     dense view of the input (rows lo..hi of it). *)
+     dense view of the input (rows lo..hi of it).
+   Hypothesis on the slice (audit, defect 10): lo <= hi.  On a reversed slice such as
+   (3, 1) the real function raises ValueError (np.zeros(hi - lo): negative dimensions)
+   while the model, whose subtraction is truncated, answers with the 0-row matrix
+   (c13_example_reversed_slice); the only caller that passes a slice,
+   _transpose_sparse_matrix_on_disk_v2, never produces one (c13_parallel_slices). *)
 Theorem c13_transpose_exact : forall m n_major use_data indices_max sl E L Lc,
   wf_comp m indices_max -> length (ptr m) = S n_major ->
   (use_data = true -> length (dat m) = length (idx m)) ->
+  (forall s, sl = Some s -> fst s <= snd s) ->
   1 <= L -> 1 <= Lc ->
   exists t, transpose m use_data indices_max sl E L Lc = Ok t /\
     let out := t_out t in
@@ -57,7 +73,7 @@ Theorem c13_transpose_exact : forall m n_major use_data indices_max sl E L Lc,
        (forall r j, r < n_out -> j < n_major -> cell out r j = cell m j (lo + r)) /\
        dense_of out n_out n_major =
        map (fun r => map (fun j => cell m j (lo + r)) (seq 0 n_major)) (seq 0 n_out)).
-Proof. exact transpose_full. Qed.
+Proof. exact transpose_full_guarded. Qed.
 Print Assumptions c13_transpose_exact.
 
 (* the stored pattern, with or without a value array: (r, j) is stored in the output
@@ -70,17 +86,28 @@ Theorem c13_transpose_pattern : forall m n_minor use_data indices_max sl r j,
 Proof. exact spec_stored. Qed.
 Print Assumptions c13_transpose_pattern.
 
-(* the same equation without any well-formedness of the pointer array: the function
-   computes transpose_spec whenever it is given chunk sizes >= 1, consistent array
-   lengths and (without a slice) row indices below indices_max *)
+(* the function computes transpose_spec: the loop nest (count pass, block loop, load
+   chunks, next-free-slot table) against the one-line grouping of the entries by minor
+   index.  transpose_spec reads the column of an entry off the pointer array with the same
+   major_of (np.searchsorted(..., side='right') - 1) as the function, so this is a
+   statement about the LOOPS, not about the column lookup: that major_of is the column is
+   part of c13_transpose_exact / c13_transpose_pattern (col_spec, under wf_comp).
+   Hypotheses: a well-formed pointer array (from 0, monotone, ending at the number of
+   stored entries - on a non-monotone array np.searchsorted and major_of differ, e.g. on
+   [2; 0; 3] numpy answers columns 1, 1, 1 and major_of 0, 0, 1:
+   c13_example_nonmonotone_ptr; the proof does not use the hypothesis, the FAITHFULNESS
+   of the model does), a slice with lo <= hi, chunk sizes >= 1, consistent array lengths
+   and (without a slice) row indices below indices_max. *)
 Theorem c13_transpose_is_spec : forall m use_data indices_max sl E L Lc,
+  hd 1 (ptr m) = 0 /\ mono (ptr m) /\ last (ptr m) 0 = length (idx m) ->
+  (forall s, sl = Some s -> fst s <= snd s) ->
   1 <= L -> 1 <= Lc ->
   (use_data = true -> length (dat m) = length (idx m)) ->
   (sl = None -> Forall (fun r => r < indices_max) (idx m)) ->
   exists t, transpose m use_data indices_max sl E L Lc = Ok t /\
             t_out t = transpose_spec m use_data indices_max sl /\
             chained 0 (t_blocks t) (n_out_of indices_max sl).
-Proof. exact transpose_exact. Qed.
+Proof. exact transpose_exact_guarded. Qed.
 Print Assumptions c13_transpose_is_spec.
 
 (* the block loop on its own: from any block boundary r0 with the rows before r0
@@ -104,13 +131,14 @@ Print Assumptions c13_block_loop_terminates.
    slice - or a whole matrix - without any stored entry transposes to the empty matrix:
    no index, no value, a pointer array of n_out + 1 zeros *)
 Theorem c13_transpose_empty_slice : forall m use_data indices_max sl E L Lc,
+  (forall s, sl = Some s -> fst s <= snd s) ->
   1 <= L -> 1 <= Lc -> (use_data = true -> length (dat m) = length (idx m)) ->
   (sl = None -> Forall (fun r => r < indices_max) (idx m)) ->
   length (apply_slice sl (all_entries m use_data)) = 0 ->
   exists t, transpose m use_data indices_max sl E L Lc = Ok t /\
             t_out t = {| ptr := repeat 0 (S (n_out_of indices_max sl)); idx := []; dat := [] |} /\
             chained 0 (t_blocks t) (n_out_of indices_max sl).
-Proof. exact transpose_empty_slice. Qed.
+Proof. exact transpose_empty_slice_guarded. Qed.
 Print Assumptions c13_transpose_empty_slice.
 
 (* ---- _transpose_sparse_matrix_on_disk_v2 (n_processors >= 1 workers, each transposing
@@ -122,11 +150,65 @@ Print Assumptions c13_transpose_empty_slice.
    rows, no stored value, no row at all included (the former findings F2w, F4, F4z,
    F4m). *)
 Theorem c13_parallel_concat : forall m use_data indices_max n_proc E L Lc,
+  hd 1 (ptr m) = 0 /\ mono (ptr m) /\ last (ptr m) 0 = length (idx m) ->
   1 <= n_proc -> 1 <= L -> 1 <= Lc -> (use_data = true -> length (dat m) = length (idx m)) ->
   Forall (fun r => r < indices_max) (idx m) ->
   transpose_v2 m use_data indices_max n_proc E L Lc = Ok (transpose_spec m use_data indices_max None).
-Proof. exact transpose_v2_exact. Qed.
+Proof. exact transpose_v2_guarded. Qed.
 Print Assumptions c13_parallel_concat.
+
+(* the slices the parallel version hands to its workers (v2_slices indices_max n_proc =
+   range(0, indices_max, max(1, ceil(indices_max / n_proc))) with i1 = min(indices_max,
+   i0 + size); last conjunct: these ARE the slices transpose_v2 maps the serial function
+   over): they tile [0, indices_max) - the first starts at 0, each starts where the
+   previous one ended, the last ends at indices_max -, each has lo < hi <= indices_max, so
+   none is the reversed slice excluded in c13_transpose_exact, and there are at most
+   n_proc of them. *)
+Theorem c13_parallel_slices : forall m use_data indices_max n_proc E L Lc,
+  1 <= n_proc ->
+  let sls := v2_slices indices_max n_proc in
+  chained 0 sls indices_max /\
+  Forall (fun s => fst s < snd s /\ snd s <= indices_max /\
+                   (forall s', Some s = Some s' -> fst s' <= snd s')) sls /\
+  length sls <= n_proc /\
+  transpose_v2 m use_data indices_max n_proc E L Lc =
+  bind (res_map (fun s => match transpose m use_data indices_max (Some s) E L Lc with
+                          | Ok t => Ok (t_out t)
+                          | Err _ => Err EWorker
+                          end) sls) (fun pieces =>
+  let indices_size := sum_list (map (fun p => length (idx p)) pieces) in
+  let r := merge_from 0 pieces in
+  Ok {| ptr := fst r ++ [indices_size]; idx := fst (snd r); dat := snd (snd r) |}).
+Proof. exact v2_slices_ok. Qed.
+Print Assumptions c13_parallel_slices.
+
+(* the direct value clause of the parallel version (c13_parallel_concat composed with
+   c13_transpose_exact): for every well-formed CSC input, every worker count >= 1 and
+   every budget the parallel function returns what the serial one returns on the whole
+   range, a well-formed compressed matrix (pointer array from 0, monotone, indices_max + 1
+   entries, ending at the number of stored entries = that of the input; column indices
+   below the number of columns, sorted - strictly when the input stores no pair twice -
+   inside every row) whose dense view is the transpose of the dense view of the input *)
+Theorem c13_parallel_exact : forall m n_major use_data indices_max n_proc E L Lc,
+  wf_comp m indices_max -> length (ptr m) = S n_major ->
+  (use_data = true -> length (dat m) = length (idx m)) ->
+  1 <= n_proc -> 1 <= L -> 1 <= Lc ->
+  exists out, transpose_v2 m use_data indices_max n_proc E L Lc = Ok out /\
+    (exists t, transpose m use_data indices_max None E L Lc = Ok t /\ t_out t = out) /\
+    hd 1 (ptr out) = 0 /\ mono (ptr out) /\ length (ptr out) = S indices_max /\
+    last (ptr out) 0 = length (idx out) /\
+    length (idx out) = length (idx m) /\
+    Forall (fun c => c < n_major) (idx out) /\
+    (forall r, r < indices_max ->
+       let seg := slice (idx out) (nth r (ptr out) 0) (nth (S r) (ptr out) 0) in
+       mono seg /\ (no_dup_minor m -> strictly_increasing seg = true)) /\
+    (use_data = true ->
+       length (dat out) = length (idx out) /\
+       (forall r j, r < indices_max -> j < n_major -> cell out r j = cell m j r) /\
+       dense_of out indices_max n_major =
+       map (fun r => map (fun j => cell m j r) (seq 0 n_major)) (seq 0 indices_max)).
+Proof. exact transpose_v2_full. Qed.
+Print Assumptions c13_parallel_exact.
 
 (* in particular without any stored value: the empty matrix *)
 Theorem c13_parallel_empty : forall m use_data indices_max n_proc E L Lc,
@@ -172,6 +254,23 @@ Theorem c13_copy_layer_dense : forall (d : dense) nr nc chunks out,
   copy_dense d nr nc chunks = Ok out -> out = d.
 Proof. exact copy_dense_exact. Qed.
 Print Assumptions c13_copy_layer_dense.
+
+(* total form: the copy is accepted - and is the identity - exactly on the chunk shapes
+   h5py accepts for the destination: the chunk shape of a chunked source (1 <= chunk <=
+   extent in both dimensions, which HDF5 guarantees for a fixed-size dataset) or, for a
+   contiguous source (chunks = None: rows // 10 capped at 10000, or all rows, by all
+   columns), an array with at least one row and one column; everywhere else create_dataset
+   raises ValueError (a chunk dimension 0 or beyond the extent) *)
+Theorem c13_copy_layer_dense_total : forall (d : dense) nr nc chunks,
+  length d = nr -> Forall (fun row => length row = nc) d ->
+  let accepted := match chunks with
+                  | Some c => 1 <= fst c <= nr /\ 1 <= snd c <= nc
+                  | None => 1 <= nr /\ 1 <= nc
+                  end in
+  (accepted -> copy_dense d nr nc chunks = Ok d) /\
+  (~ accepted -> copy_dense d nr nc chunks = Err EValue).
+Proof. exact copy_dense_total. Qed.
+Print Assumptions c13_copy_layer_dense_total.
 
 (* ---- shuffle_csr_h5ad_rows (precompute_indptr + the row-by-row copy into datasets of
    the original size): for every well-formed CSR matrix - duplicate minor indices inside
@@ -240,31 +339,64 @@ Print Assumptions c13_subset_columns.
    For EVERY list of admissible sources, with D = the selected rows of source 1 in the
    requested order, then those of source 2, ... (source_rows reads them off the dense
    views):
-   - the dense destination is exactly D;
-   - the sparse destination, told the total number of rows, is a well-formed
-     duplicate-free CSR matrix whose dense view is D: both destinations agree. *)
+   - the dense destination is exactly D, a rectangular array with at least one row -
+     provided there is at least one source and at least one column: the real
+     amalgamate_dense_to_x creates the dataset with chunks=(min(n_rows,1000),
+     min(n_cols,1000)) and h5py raises ValueError on a zero chunk dimension (zero
+     columns), and without any source its shape test raises RuntimeError, whereas the
+     model's concat answers Ok [] (c13_example_amalgamate_guard); checked against the real
+     amalgamate_h5ad: both excluded inputs raise for dst_sparse=False and succeed for
+     dst_sparse=True;
+   - the sparse destination (no such guard), told the total number of rows, is a
+     well-formed duplicate-free CSR matrix whose dense view is D: both destinations agree. *)
 Theorem c13_amalgamate : forall srcs nc,
   Forall (source_ok nc) srcs ->
   let D := concat (map (source_rows nc) srcs) in
-  amalgamate_to_dense srcs = Ok D /\
+  (srcs <> [] -> 1 <= nc ->
+     amalgamate_to_dense srcs = Ok D /\ 1 <= length D /\ Forall (fun row => length row = nc) D) /\
   exists out, amalgamate_to_csr srcs (length D) = Ok out /\
     wf_csr out (length D) nc /\ no_dup_minor out /\ dense_of out (length D) nc = D.
-Proof. exact amalgamate_exact. Qed.
+Proof. exact amalgamate_exact_guarded. Qed.
 Print Assumptions c13_amalgamate.
 
 (* the joining step on its own (amalgamate_csr_to_x = merge_csr + the row count): pieces
    of n_k rows are joined into a well-formed matrix of sum n_k rows whose dense view is
-   the concatenation of theirs, which is what amalgamate_dense_to_x writes *)
+   the concatenation of theirs, which is what amalgamate_dense_to_x writes
+   (amalgamate_dense := concat, by definition of the model; the former last conjunct, which
+   repeated the equation with amalgamate_dense on the right, was convertible to this one and
+   has been dropped).
+   Scope: the row count passed is the total number of rows of the pieces (what
+   _amalgamate_h5ad passes when len(dst_obs) is the number of selected rows); for any other
+   row count see c13_amalgamate_rowcount_unchecked. *)
 Theorem c13_amalgamate_join : forall pieces ns nc,
   Forall2 (fun p n => wf_csr p n nc /\ no_dup_minor p) pieces ns ->
   exists out, amalgamate_csr pieces (sum_list ns) = Ok out /\
     wf_csr out (sum_list ns) nc /\ no_dup_minor out /\
     dense_of out (sum_list ns) nc =
-    concat (map (fun pn => dense_of (fst pn) (snd pn) nc) (combine pieces ns)) /\
-    dense_of out (sum_list ns) nc =
-    amalgamate_dense (map (fun pn => dense_of (fst pn) (snd pn) nc) (combine pieces ns)).
-Proof. exact amalgamate_csr_exact. Qed.
+    concat (map (fun pn => dense_of (fst pn) (snd pn) nc) (combine pieces ns)).
+Proof. exact amalgamate_csr_join. Qed.
 Print Assumptions c13_amalgamate_join.
+
+(* the row count is NOT validated by the sparse destination (model changed after the audit
+   to what amalgamate_csr_to_x does: n_rows + 1 zeros, pieces written at the running row
+   position, last entry = n_valid; the former model answered Err EReject for every row
+   count other than the number of rows, which Python does not): well-formed pieces of
+   1 + 2 rows joined under the row count 3 give the CSR matrix; under 4 the function
+   returns normally with the pointer array [0; 0; 1; 0; 2], which is not monotone; under 2
+   it returns normally with a row boundary overwritten; under 1 h5py refuses (TypeError:
+   the clipped slice cannot take the 2-row piece; a clipped 1-row piece is broadcast away).  Reached
+   through amalgamate_h5ad(dst_sparse=True) whenever len(dst_obs) is not the number of
+   selected rows (the dense destination raises RuntimeError there): reported to the lead
+   as a finding candidate (class amalgamate-sparse-rowcount-unchecked), like
+   c13_shuffle_rows_sublist_refuted. *)
+Theorem c13_amalgamate_rowcount_unchecked :
+  Forall2 (fun p n => wf_csr p n 4 /\ no_dup_minor p) rc_pieces [1; 2] /\
+  amalgamate_csr rc_pieces 3 = Ok {| ptr := [0; 0; 1; 2]; idx := [3; 0]; dat := [7; 8]%Z |} /\
+  (exists out, amalgamate_csr rc_pieces 4 = Ok out /\ ptr out = [0; 0; 1; 0; 2] /\ ~ mono (ptr out)) /\
+  amalgamate_csr rc_pieces 2 = Ok {| ptr := [0; 0; 2]; idx := [3; 0]; dat := [7; 8]%Z |} /\
+  amalgamate_csr rc_pieces 1 = Err EReject.
+Proof. exact amalgamate_rowcount_unchecked. Qed.
+Print Assumptions c13_amalgamate_rowcount_unchecked.
 
 (* entry points 1305 / 1306 = amalgamate_to_csr / amalgamate_to_dense on the decoded wire *)
 Theorem c13_amalgamate_wire : forall srcs nr ss n,
@@ -393,4 +525,104 @@ Proof.
       split; [discriminate|]. split; [repeat (apply NoDup_cons; [cbn [In]; lia|]); apply NoDup_nil|].
       repeat (apply Forall_cons; [lia|]). apply Forall_nil.
   - vm_compute. repeat split; reflexivity.
+Qed.
+
+(* ---- the guards added after the audit: each excluded input is exactly where the real
+   function raises while the (total) model answers *)
+(* a reversed slice: Python raises ValueError (np.zeros(1 - 3)); the model's truncated
+   subtraction gives the matrix with no row *)
+Example c13_example_reversed_slice :
+  ~ (fst (3, 1) <= snd (3, 1)) /\
+  match transpose c13_ex true 3 (Some (3, 1)) 2 2 1 with
+  | Ok t => t_out t = {| ptr := [0]; idx := []; dat := [] |} /\ t_blocks t = []
+  | Err _ => False
+  end.
+Proof. split; [cbn; lia|]. vm_compute. split; reflexivity. Qed.
+(* the count pass: c13_ex (minor indices 0..2, n = 3; and its slice (1, 3), n = 2) meets
+   the hypothesis of c13_count_pass; a minor index 5 >= n = 3 without a slice does not:
+   Python raises IndexError (cumulative_count[5]), calc_indptr alone drops the entry from
+   the counts but not from n_non_zero (pointer array ending at 2, n_non_zero = 3), and the
+   model's entry point answers Err EIndex as Python does *)
+Example c13_example_count_pass_guard :
+  Forall (fun e => e_minor e < 3) (apply_slice None (all_entries c13_ex false)) /\
+  calc_indptr (all_entries c13_ex false) 3 None 2 = ([0; 2; 2; 5], 5) /\
+  Forall (fun e => e_minor e < 2) (apply_slice (Some (1, 3)) (all_entries c13_ex false)) /\
+  calc_indptr (all_entries c13_ex false) 2 (Some (1, 3)) 2 = ([0; 0; 3], 3) /\
+  let bad := {| ptr := [0; 3]; idx := [0; 1; 5]; dat := [] |} in
+  ~ Forall (fun e => e_minor e < 3) (apply_slice None (all_entries bad false)) /\
+  calc_indptr (all_entries bad false) 3 None 1 = ([0; 1; 2; 2], 3) /\
+  transpose bad false 3 None 2 2 1 = Err EIndex.
+Proof.
+  split; [vm_compute; repeat (apply Forall_cons; [cbn; lia|]); apply Forall_nil|].
+  split; [vm_compute; reflexivity|].
+  split; [vm_compute; repeat (apply Forall_cons; [cbn; lia|]); apply Forall_nil|].
+  split; [vm_compute; reflexivity|]. cbv zeta.
+  split; [|split; vm_compute; reflexivity].
+  vm_compute. intros H. inversion H as [|? ? _ H1]; subst. inversion H1 as [|? ? _ H2]; subst.
+  inversion H2 as [|? ? H3 _]; subst. cbn in H3. lia.
+Qed.
+(* a pointer array that is not monotone: the model's column lookup and numpy's
+   np.searchsorted([2, 0, 3], [0, 1, 2], side='right') - 1 = [1, 1, 1] differ, which is why
+   c13_transpose_is_spec / c13_parallel_concat carry the well-formedness hypothesis *)
+Example c13_example_nonmonotone_ptr :
+  ~ mono [2; 0; 3] /\
+  map e_major (all_entries {| ptr := [2; 0; 3]; idx := [0; 0; 0]; dat := [] |} false) = [0; 0; 1].
+Proof. split; [cbn; lia | vm_compute; reflexivity]. Qed.
+(* the stored pattern: c13_ex, its slice (1, 3), output row 1 = input row 2; column 2
+   stores row 2, column 0 does not store row 1 *)
+Example c13_example_pattern :
+  wf_comp c13_ex 3 /\ 1 < n_out_of 3 (Some (1, 3)) /\ 3 < length (ptr c13_ex) /\
+  stored (transpose_spec c13_ex false 3 (Some (1, 3))) 1 2 = true /\ stored c13_ex 2 (1 + 1) = true /\
+  stored (transpose_spec c13_ex false 3 (Some (1, 3))) 0 0 = false /\ stored c13_ex 0 (1 + 0) = false.
+Proof.
+  destruct c13_example_wf as (W & _). split; [exact W|].
+  split; [cbn; lia|]. split; [cbn; lia|]. vm_compute. repeat split; reflexivity.
+Qed.
+(* the slices of the parallel version: 7 rows over 3 workers, more workers than rows,
+   no row at all *)
+Example c13_example_parallel_slices :
+  v2_slices 7 3 = [(0, 3); (3, 6); (6, 7)] /\ v2_slices 3 5 = [(0, 1); (1, 2); (2, 3)] /\
+  v2_slices 0 2 = [] /\ v2_slices 10 4 = [(0, 3); (3, 6); (6, 9); (9, 10)].
+Proof. vm_compute. repeat split; reflexivity. Qed.
+(* the parallel value clause on c13_ex (hypotheses: c13_example_wf): the dense view of the
+   result is the transpose of the column-major dense view of c13_example_run *)
+Example c13_example_parallel_exact :
+  match transpose_v2 c13_ex true 3 2 2 2 1 with
+  | Ok out => dense_of out 3 4 = [[5; 0; 0; 8]; [0; 0; 0; 0]; [6; 0; 7; 9]]%Z
+  | Err _ => False
+  end /\
+  map (fun r => map (fun j => cell c13_ex j r) (seq 0 4)) (seq 0 3) =
+  [[5; 0; 0; 8]; [0; 0; 0; 0]; [6; 0; 7; 9]]%Z.
+Proof. vm_compute. split; reflexivity. Qed.
+(* copy_layer_to_x, dense layer: a 3 x 3 array with the chunk shape (2, 2) and as a
+   contiguous dataset meets the hypotheses of c13_copy_layer_dense(_total) and is copied
+   as it is; an array without rows (contiguous) and a chunk shape beyond the extent are
+   where h5py raises ValueError; copy_h5_excluding_data on the same array with hyperslabs
+   of 2 per dimension (hypotheses of c13_copy_h5_2d) *)
+Definition c13_arr : dense := [[1; 2; 3]; [4; 5; 6]; [7; 8; 9]]%Z.
+Example c13_example_copy_dense :
+  length c13_arr = 3 /\ Forall (fun row => length row = 3) c13_arr /\
+  copy_dense c13_arr 3 3 (Some (2, 2)) = Ok c13_arr /\ copy_dense c13_arr 3 3 None = Ok c13_arr /\
+  copy_dense [] 0 3 None = Err EValue /\ copy_dense [[1; 2; 3]]%Z 1 3 (Some (2, 3)) = Err EValue /\
+  copy_h5_2d c13_arr 3 3 2 = c13_arr.
+Proof.
+  split; [reflexivity|]. split; [repeat (apply Forall_cons; [reflexivity|]); apply Forall_nil|].
+  vm_compute. repeat split; reflexivity.
+Qed.
+(* amalgamate, dense destination: without a source, and with sources of zero columns, the
+   model answers Ok while the real amalgamate_h5ad(dst_sparse=False) raises (RuntimeError
+   "Expected shape ..." / ValueError "All chunk dimensions must be positive"); the sparse
+   destination writes the empty matrix in both cases, in the model and in Python *)
+Example c13_example_amalgamate_guard :
+  amalgamate_to_dense [] = Ok [] /\
+  amalgamate_to_csr [] 0 = Ok {| ptr := [0]; idx := []; dat := [] |} /\
+  Forall (source_ok 0) [SrcDense [[]; []] 2 [1; 0]] /\
+  amalgamate_to_dense [SrcDense [[]; []] 2 [1; 0]] = Ok [[]; []] /\
+  amalgamate_to_csr [SrcDense [[]; []] 2 [1; 0]] 2 = Ok {| ptr := [0; 0; 0]; idx := []; dat := [] |}.
+Proof.
+  split; [reflexivity|]. split; [reflexivity|]. split; [|split; vm_compute; reflexivity].
+  constructor; [|constructor]. cbn [source_ok]. split; [reflexivity|].
+  split; [repeat (apply Forall_cons; [reflexivity|]); apply Forall_nil|].
+  split; [discriminate|]. split; [repeat (apply NoDup_cons; [cbn [In]; lia|]); apply NoDup_nil|].
+  repeat (apply Forall_cons; [lia|]). apply Forall_nil.
 Qed.
